@@ -752,6 +752,7 @@ func (c *Ctx) c10NoMemory(pm *pairModel, storeT, mboxT *types.Named, readIndex *
 						if (&eng.Search{Target: func(x ssa.Instruction) bool { return x == this }, Avoid: isRead,
 							Edge: func(b *ssa.BasicBlock, k int) bool { return !loadedTrueEdge(b, k) }}).FromEntry(fn) == nil {
 							nLocal++
+							r.Ok("C10/NO-MEMORY-STATE", "reads-messages@"+shortFn(fn), p.InstrPos(in), "the function literal loads the index itself before it touches mbox.messages")
 							return
 						}
 					}
